@@ -29,8 +29,9 @@ def _txs(case):
     txs = []
     for i in range(n):
         wit = [[bytes([i % 256, salt % 256])]] if (mask >> (i % 64)) & 1 and case['wit'] else None
-        txs.append({'version': 1, 'vin': [(H.dsha(b'%d/%d' % (salt, i)), i, bytes([0x51] * (i % 3)), 0xffffffff - i)],
-                    'vout': [(i, b'\x51')], 'wit': wit, 'locktime': 0})
+        # stripped sizes 60..72 bytes (among them the 64 bytes of an inner merkle node), chosen by (i, salt)
+        txs.append({'version': 1, 'vin': [(H.dsha(b'%d/%d' % (salt, i)), i, bytes([0x51] * ((i + salt) % 7)), 0xffffffff - i)],
+                    'vout': [(i, b'\x51' * ((i * 3 + salt // 7) % 7))], 'wit': wit, 'locktime': 0})
     for dst, src in case.get('dups', []):
         txs[dst % n] = txs[src % n]
     return txs
@@ -66,6 +67,12 @@ def check_case(case):
     b2 = libx.call('construct-right', CBlock, hashMerkleRoot=root, vtx=vtx)[1]
     if b2.hashMerkleRoot != root:
         raise Violation('root/right-declared', 'right declared root not kept')
+    if n % 4 == 1:
+        # the declared root (right, or all-zero = "fill it in") held as bytearray / memoryview
+        for kind, rv in libx.spellings(root)[1:] + libx.spellings(bytes(32))[1:]:
+            bb = libx.call('construct-root-as-' + kind, CBlock, hashMerkleRoot=rv, vtx=vtx)[1]
+            if bytes(bb.hashMerkleRoot) != root or bb.GetHash() != b2.GetHash():
+                raise Violation('root/declared-as-' + kind, 'block constructed with the root given as %s differs' % kind)
     related = [root[::-1], root[16:] + root[:16], W.txid(txs[0]), W.txid(txs[-1]), M.merkle_root([W.txid(t) for t in txs[:-1]] or [bytes(32)]),
                M.merkle_root([W.wtxid(t) for t in txs]), M.witness_root([W.wtxid(t) for t in txs]), root[:31] + bytes([root[31] ^ 0x80]), b'\xff' * 32]
     for wrong in [bytes([root[0] ^ 1]) + root[1:], H.dsha(root), b'\x01' * 32] + [r for r in related if r != root and r != bytes(32)]:
